@@ -401,6 +401,7 @@ func c17PeerRole(c *Ctx, isEquip, active bool) {
 	}
 	defer e.close()
 	c17PeerOutbound(c, e, tag)
+	c17PeerForwardSameHeader(c, e, tag)
 	c17PeerInbound(c, e, tag)
 	if st := e.conn.State(); st != hsms.SelectedState {
 		c.Violate("property", "link-taken-down", fmt.Sprintf("connection state %v after the scripted exchange (%s)", st, tag), map[string]any{"role": tag, "line": e.peer.lineLog})
@@ -529,6 +530,43 @@ func c17PeerOutbound(c *Ctx, e *s1Endpoint, tag string) {
 }
 
 // ---- inbound: the peer sends a scripted block sequence
+
+// c17PeerForwardSameHeader: consecutive single-block messages that share stream / function / W-bit AND system bytes
+// (a relay using ForwardDataMessage with caller-owned system bytes) and have bodies of the same length but different
+// content: each transmitted block must carry ITS message's body (after seeded change C17e-2: a one-entry wire-form
+// cache keyed by header and length).
+func c17PeerForwardSameHeader(c *Ctx, e *s1Endpoint, tag string) {
+	sys := [4]byte{0, 0, 0, 1}
+	for k, txt := range []string{"LOT-1001", "LOT-1002", "LOT-1003", "LOT-2004x", "LOT-2005x"} {
+		msg, err := hsms.NewDataMessage(2, 41, false, e.dev, sys, secs2.NewASCIIItem(txt))
+		if err != nil {
+			c.Violate("correspondence", "peer-setup", "NewDataMessage: "+err.Error(), nil)
+			return
+		}
+		done := make(chan error, 1)
+		go func() {
+			ctx, cancel := context.WithTimeout(context.Background(), 20*time.Second)
+			defer cancel()
+			done <- e.conn.ForwardDataMessage(ctx, msg)
+		}()
+		e.peer.serveUntil(func() bool { e.peer.mu.Lock(); defer e.peer.mu.Unlock(); return len(e.peer.received) > 0 }, 15*time.Second)
+		wires := e.peer.takeReceived()
+		ferr := <-done
+		c.Count(fmt.Sprintf("peer-forward|%s|%d", tag, k), true)
+		c.Stat("peer-forward-same-header")
+		replay := map[string]any{"role": tag, "message": k, "text": txt, "system_bytes": "00000001"}
+		if ferr != nil || len(wires) != 1 {
+			c.Violate("property", "peer-send-failed", fmt.Sprintf("ForwardDataMessage #%d: err=%v, %d blocks on the line", k, ferr, len(wires)), replay)
+			return
+		}
+		w := wires[0]
+		body := w[11 : len(w)-2]
+		if want := secs2.NewASCIIItem(txt).ToBytes(); !bytes.Equal(body, want) {
+			c.Violate("property", "peer-body-differs", fmt.Sprintf("forwarded message #%d (%q): the block on the line carries body %x, the message's SECS-II encoding is %x", k, txt, body, want), replay)
+			return
+		}
+	}
+}
 
 func c17PeerInbound(c *Ctx, e *s1Endpoint, tag string) {
 	base := len(e.deliveries())
